@@ -629,3 +629,7 @@ mod tests {
         assert!(matches!(l2, Load::Miss));
     }
 }
+
+#[cfg(kani)]
+#[path = "/verif/harness/foyer-storage/store.rs"]
+mod verif_kani;
